@@ -895,9 +895,7 @@ theorem eraseMarkers_rhs (r : Rule) : (eraseMarkers r).rhs = (syms r.rhs).map It
 
 theorem name_inj {g : Gram} (hnd : g.names.Nodup) {i j : Nat} (hi : i < g.names.length)
     (hj : j < g.names.length) (h : name g i = name g j) : i = j := by
-  simp only [name, List.getD_eq_getElem?_getD, List.getElem?_eq_getElem hi, List.getElem?_eq_getElem hj,
-    Option.getD_some] at h
-  exact (List.Nodup.getElem_inj_iff hnd).mp h
+  exact (List.getD_inj hi hj hnd).mp h
 
 theorem map_inj_on {f : α → β} {l1 l2 : List α} (hf : ∀ x ∈ l1, ∀ y ∈ l2, f x = f y → x = y)
     (h : l1.map f = l2.map f) : l1 = l2 := by
@@ -947,7 +945,7 @@ theorem inRange_rule {g : Gram} (h : inRange g = true) {r : Rule} (hr : r ∈ g.
 theorem rules_of_rulesOf {g₁ g₂ : Gram} (hnames : g₁.names = g₂.names) (hnd : g₁.names.Nodup)
     (hr₁ : inRange g₁ = true) (hr₂ : inRange g₂ = true) (h : rulesOf g₁ = rulesOf g₂) :
     g₁.rules.map eraseMarkers = g₂.rules.map eraseMarkers := by
-  have hname : ∀ i, name g₂ i = name g₁ i := fun i => by simp [name, hnames]
+  have hname : name g₂ = name g₁ := funext fun i => by simp [name, hnames]
   apply map_rel (f1 := ruleN g₁) (f2 := ruleN g₂) _ h
   intro r₁ hm₁ r₂ hm₂ he
   obtain ⟨a1, a2, a3⟩ := inRange_rule hr₁ hm₁
@@ -974,7 +972,7 @@ theorem rules_of_rulesOf {g₁ g₂ : Gram} (hnames : g₁.names = g₂.names) (
 
 theorem prec_of_precOf {g₁ g₂ : Gram} (hnames : g₁.names = g₂.names) (hnd : g₁.names.Nodup)
     (hr₁ : inRange g₁ = true) (hr₂ : inRange g₂ = true) (h : precOf g₁ = precOf g₂) : g₁.prec = g₂.prec := by
-  have hname : ∀ i, name g₂ i = name g₁ i := fun i => by simp [name, hnames]
+  have hname : name g₂ = name g₁ := funext fun i => by simp [name, hnames]
   have q₁ : ∀ p ∈ g₁.prec, ∀ t ∈ p.terms, t < g₁.names.length := by
     simp only [inRange, Bool.and_eq_true, List.all_eq_true, decide_eq_true_eq] at hr₁
     exact hr₁.2
